@@ -86,13 +86,16 @@ theorem backoff_inv (s : Sock) (lim : UInt32) (h : Inv0 s) (hl : lim = cDEF_RTO 
     cMIN_RTO ≤ min lim (s.rx_rto * 2) ∧ min lim (s.rx_rto * 2) ≤ cMAX_RTO :=
   backoff_range _ _ h.rto_lo h.rto_hi hl
 
+theorem rto_limit_cases (c : Prop) [Decidable c] :
+    (if c then cDEF_RTO else cMAX_RTO) = cDEF_RTO ∨ (if c then cDEF_RTO else cMAX_RTO) = cMAX_RTO := by
+  split <;> simp
+
 theorem clockRetransmit_spec (s : Sock) (now clk : UInt32) :
     ⦃⌜Inv0 s⌝⦄ clockRetransmit s now clk ⦃⇓? r => ⌜Inv0 r.2⌝⦄ := by
   mvcgen [clockRetransmit, transmit_spec, closedown_spec] <;> inv0
   all_goals
     rename_i h
-    refine ⟨h.sws, h.rws, (backoff_inv _ _ h ?_).1, (backoff_inv _ _ h ?_).2, h.rb, h.sb⟩ <;>
-      (split <;> simp)
+    exact ⟨h.sws, h.rws, (backoff_inv _ _ h (rto_limit_cases _)).1, (backoff_inv _ _ h (rto_limit_cases _)).2, h.rb, h.sb⟩
 
 theorem clockProbe_spec (s : Sock) (now clk : UInt32) :
     ⦃⌜Inv0 s⌝⦄ clockProbe s now clk ⦃⇓? r => ⌜Inv0 r.2⌝⦄ := by
